@@ -18,9 +18,9 @@ RULE = ("seeded generator of sweep-centred pipelines: wrapped kind {source, oper
         "(linear/log range with/without endpoint, explicit sequences written both ways, from_context) x mode x broadcast "
         "x expressions from the safe grammar x placement of non-swept parameters x surrounding nodes; distinct = hash of "
         "(nodes, ctx, data); non-trivial = the sweep node executed with >= 2 steps or was rejected for unequal lengths")
-SHARDS = {"quick": 1, "thorough": 16}
-SHARD_TIMEOUT = {"thorough": 2400}
-N_CASES = {"quick": 2500, "thorough": 6000}
+SHARDS = {"quick": 1, "thorough": 48}
+SHARD_TIMEOUT = {"thorough": 3000}
+N_CASES = {"quick": 2500, "thorough": 2000}  # per shard
 
 
 def run(run):
